@@ -1311,7 +1311,8 @@ def run(tier, seed):
         "Model/History.v and Model/Shim.v are hand-written; tied to util.py (lazyproperty), dimension.py "
         "(_ElementIdShim), cube.py (Cube.inflate, augment_response, CubeSet._cubes) by this run only",
         "the relational oracle and the no-mutation leg need no model: they compare the implementation with itself "
-        "on pristine copies / the argument objects with their pristine copies"])
+        "on pristine copies / the argument objects with their pristine copies",
+        __import__("harness.props.cube_tb", fromlist=["cube_trusted_base"]).cube_trusted_base()])
 
 
 # ------------------------------------------------------------------------------------
